@@ -73,7 +73,7 @@ class Block(Entity):
         :returns: The newly created tag.
         :rtype: nixio.MultiTag
         """
-        if copy_from:
+        if copy_from is not None:
             if not isinstance(copy_from, MultiTag):
                 raise TypeError("Object to be copied is not a MultiTag")
             objname = self._copy_objects(copy_from, "multi_tags", keep_copy_id, name)
@@ -140,7 +140,7 @@ class Block(Entity):
         :returns: The newly created tag.
         :rtype: nixio.Tag
         """
-        if copy_from:
+        if copy_from is not None:
             if not isinstance(copy_from, Tag):
                 raise TypeError("Object to be copied is not a Tag")
             objname = self._copy_objects(copy_from, "tags", keep_copy_id, name)
@@ -227,7 +227,7 @@ class Block(Entity):
         :rtype: :class:`~nixio.DataArray`
         """
 
-        if copy_from:
+        if copy_from is not None:
             if not isinstance(copy_from, DataArray):
                 raise TypeError("Object to be copied is not a DataArray")
             objname = self._copy_objects(copy_from, "data_arrays", keep_copy_id, name)
@@ -294,7 +294,7 @@ class Block(Entity):
         :returns: The newly created data frame.
         :rtype: :class:`~nixio.DataFrame`
         """
-        if copy_from:
+        if copy_from is not None:
             if not isinstance(copy_from, DataFrame):
                 raise TypeError("Object to be copied is not a DataFrame")
             objname = self._copy_objects(copy_from, "data_frames", keep_copy_id, name)
